@@ -608,3 +608,122 @@ func readersStoreWhatTheyRead(c *core.Ctx) {
 		c.Check(true, rule, "no reader rewrites a decoded field from itself", 0, "")
 	}
 }
+
+// declaredLengthCountsWhatIsStored: a TLV constructor that derives TLVLength from len(input) while it stores
+// helper(input) as the value relies on the helper producing exactly one element per input element.  A helper that skips
+// elements (de-duplication, filtering) makes the TLV declare more octets than it writes; the reader then swallows the
+// start of the next TLV and the PDU bio-rd serialized does not decode back.  Rule: for every TLV literal whose
+// TLVLength mentions len(P) of a parameter P and another field of which is h(P) for a helper h of the package, every
+// loop of h over its parameter stores/appends unconditionally in each iteration and has no early exit.
+func declaredLengthCountsWhatIsStored(c *core.Ctx) {
+	const rule = "declared-length-counts-what-is-stored"
+	p := c.P
+	const ipkt = "protocols/isis/packet"
+	n := 0
+	for _, f := range p.FuncsIn(ipkt) {
+		if f.Decl.Body == nil || isTestFn(p, f) {
+			continue
+		}
+		ast.Inspect(f.Decl.Body, func(nd ast.Node) bool {
+			cl, ok := nd.(*ast.CompositeLit)
+			if !ok {
+				return true
+			}
+			var lenParams []types.Object
+			for _, el := range cl.Elts {
+				kv, ok := el.(*ast.KeyValueExpr)
+				if !ok {
+					continue
+				}
+				if id, ok := kv.Key.(*ast.Ident); ok && id.Name == "TLVLength" {
+					ast.Inspect(kv.Value, func(m ast.Node) bool {
+						if call, ok := m.(*ast.CallExpr); ok && len(call.Args) == 1 {
+							if fid, ok := call.Fun.(*ast.Ident); ok && fid.Name == "len" {
+								if o := core.ObjOf(f.Pkg, call.Args[0]); o != nil {
+									lenParams = append(lenParams, o)
+								}
+							}
+						}
+						return true
+					})
+				}
+			}
+			if len(lenParams) == 0 {
+				return true
+			}
+			for _, el := range cl.Elts {
+				kv, ok := el.(*ast.KeyValueExpr)
+				if !ok {
+					continue
+				}
+				call, ok := core.Unparen(kv.Value).(*ast.CallExpr)
+				if !ok || len(call.Args) != 1 {
+					continue
+				}
+				arg := core.ObjOf(f.Pkg, call.Args[0])
+				isLenParam := false
+				for _, lp := range lenParams {
+					if lp == arg && arg != nil {
+						isLenParam = true
+					}
+				}
+				h := p.FnOf(core.Callee(f.Pkg, call))
+				if !isLenParam || h == nil || h.Decl.Body == nil {
+					continue
+				}
+				n++
+				c.Analysed(f, h)
+				hp := core.ParamObj(h, 0)
+				ok2, why := true, ""
+				nLoops := 0
+				ast.Inspect(h.Decl.Body, func(m ast.Node) bool {
+					rs, isR := m.(*ast.RangeStmt)
+					if !isR || core.ObjOf(h.Pkg, rs.X) != hp {
+						return true
+					}
+					nLoops++
+					if len(loopExits(rs.Body)) > 0 {
+						ok2, why = false, "the loop can be left early"
+					}
+					stores := 0
+					ast.Inspect(rs.Body, func(x ast.Node) bool {
+						as, isAs := x.(*ast.AssignStmt)
+						if !isAs || len(as.Rhs) != 1 {
+							return true
+						}
+						isStore := false
+						if ac, isC := core.Unparen(as.Rhs[0]).(*ast.CallExpr); isC {
+							if fid, isId := ac.Fun.(*ast.Ident); isId && fid.Name == "append" {
+								isStore = true
+							}
+						}
+						if _, isIdx := core.Unparen(as.Lhs[0]).(*ast.IndexExpr); isIdx {
+							isStore = true
+						}
+						if !isStore {
+							return true
+						}
+						stores++
+						for _, ft := range core.CtlFactsAt(h, as) {
+							if ft.Expr != nil && ft.Expr.Pos() >= rs.Body.Pos() && ft.Expr.End() <= rs.Body.End() {
+								ok2, why = false, "an element is stored only under `"+core.ExprString(ft.Expr)+"`"
+							}
+						}
+						return true
+					})
+					if stores == 0 {
+						ok2, why = false, "the loop stores nothing"
+					}
+					return true
+				})
+				if nLoops == 0 {
+					ok2, why = false, "no loop over the input found in the helper"
+				}
+				c.Check(ok2, rule, fmt.Sprintf("%s: TLVLength from len(%s), value from %s", f.Name(), arg.Name(), h.Decl.Name.Name), cl.Pos(),
+					"the TLV's declared length is computed from the number of input elements, but the helper that builds the value does not store one element per input element ("+why+"): the TLV declares more octets than are written, the reader runs into the next TLV and a PDU bio-rd serialized does not decode back")
+			}
+			return true
+		})
+	}
+	c.Check(n >= 1, rule, "length-from-input / value-from-helper constructors found", 0, "none found (confirmed by hand: NewIPInterfaceAddressesTLV)")
+}
